@@ -117,6 +117,7 @@ type Exec struct {
 	baseFuncs       map[string]Val
 	usedContracts   map[string]bool
 	lastPerm        [2]string
+	lastLess        func(st *State, a, b string) string
 	curLoopWritable []string
 	inlineMode      bool
 	scannerHandle   string
